@@ -145,9 +145,10 @@ func drawC06(t *rapid.T) C06Case {
 		MaxActions: rapid.SampledFrom([]int{8, 15, 30}).Draw(t, "maxActions"),
 		Accruals:   rapid.IntRange(0, 2).Draw(t, "accruals") == 0,
 		Assertions: true, Closes: true, Perf: true,
-		Prices:  1,
-		MaxDec:  rapid.SampledFrom([]int{2, 4}).Draw(t, "maxDec"),
-		Unicode: rapid.IntRange(0, 5).Draw(t, "unicode") == 0,
+		Prices:    1,
+		MaxDec:    rapid.SampledFrom([]int{2, 4}).Draw(t, "maxDec"),
+		Unicode:   rapid.IntRange(0, 5).Draw(t, "unicode") == 0,
+		WideDates: true,
 	}
 	j := gen.GenJournal(t, cfg)
 	wide := rapid.IntRange(0, 7).Draw(t, "wide") == 0
